@@ -87,6 +87,8 @@ where
             source: e.into_error(),
         })?;
         self.cas_inner.fdatasync(file_to_sync)?;
+        #[cfg(feature = "verif")]
+        crate::verif::point("staged");
 
         let blob_hash = BlobHash::from_bytes(*self.hasher.finalize().as_bytes());
 
